@@ -1230,7 +1230,7 @@ func ManyTiny(kind, sub, n, junk int) []byte {
 		// an XMP packet in which one property that is parsed (an id, a date, a number) holds an array
 		// of n items that are not of its kind, written in full or as compactly as the reader accepts
 		prop := []string{"xmpMM:DocumentID", "xmp:CreateDate", "xmpMM:InstanceID", "exif:DateTimeOriginal", "xmp:Rating", "xmpMM:OriginalDocumentID", "xmp:ModifyDate", "aux:ApproximateFocusDistance", "dc:subject", "dc:creator"}[sub%10]
-		item := []string{"<rdf:li>x</rdf:li>", "<rdf:li>x", "<:>x", "<rdf:li>2020-01-02T03:04:0</rdf:li>"}[junk%4]
+		item := []string{"<rdf:li>x</rdf:li>", "<rdf:li>x", "<:>x", "<rdf:li>2020-01-02T03:04:0</rdf:li>", "<rdf:li>2006-13-02T1:04:05", "<rdf:li>2006-02-31T01:04:05Z"}[junk%6]
 		out := []byte("<x:xmpmeta xmlns:x='adobe:ns:meta/'><rdf:RDF xmlns:rdf='http://www.w3.org/1999/02/22-rdf-syntax-ns#'><rdf:Description rdf:about='' xmlns:xmp='http://ns.adobe.com/xap/1.0/' xmlns:xmpMM='http://ns.adobe.com/xap/1.0/mm/' xmlns:exif='http://ns.adobe.com/exif/1.0/' xmlns:aux='http://ns.adobe.com/exif/1.0/aux/' xmlns:dc='http://purl.org/dc/elements/1.1/'><" + prop + "><rdf:Bag>")
 		for i := 0; i < n; i++ {
 			out = append(out, item...)
